@@ -317,7 +317,7 @@ def check_and_load_args(args, parser):
                 time.sleep(1)
             # stage markers of the previous run must not be taken for the state of the new run by a later --resume
             for marker_pattern in ["*_lock", "*_collected", "*_processed"]:
-                for marker_file in glob.glob(os.path.join(args.output, "*", "aux", marker_pattern)):
+                for marker_file in glob.glob(os.path.join(glob.escape(args.output), "*", "aux", marker_pattern)):
                     os.remove(marker_file)
         else:
             logger.warning("Output folder already exists, some files may be overwritten.")
@@ -437,7 +437,7 @@ def check_input_files(args):
         for lib in sample.file_list:
             for in_file in lib:
                 if args.input_data.input_type == "save":
-                    saves = glob.glob(in_file + "*")
+                    saves = glob.glob(glob.escape(in_file) + "*")
                     if not saves:
                         logger.critical("Input files " + in_file + "* do not exist")
                     continue
@@ -474,7 +474,7 @@ def check_input_files(args):
 
     if args.read_assignments is not None:
         for r in args.read_assignments:
-            if not glob.glob(r + "*"):
+            if not glob.glob(glob.escape(r) + "*"):
                 logger.critical("No files found with prefix " + str(r))
                 exit(-1)
 
